@@ -21,4 +21,16 @@ REGISTRY = {
         'explanation': 'contracts on Message and the line splitter discharged by z3/cvc5; Lean lemma for all segmentations',
         'not_decided': ['parsemsg(bytes(m)) round trip: bounded enumeration only'],
     },
+    'C20': {
+        'modules': ['contracts.auth'], 'level': 'proof',
+        'level_text': 'For every header, user table, realm and method: check_auth returns a bool that is True iff the parsed '
+                      'credentials verify against the table entry of that user; basic_auth/digest_auth proceed iff it is True; '
+                      'digest/basic checkers equal the RFC formulas over uninterpreted hashes; verify_session keeps an id iff the '
+                      'fingerprint matches; VirtualHosts honours X-Forwarded-Host only for configured gateways. All paths, no bound.',
+        'level_note': 'trusted: md5/sha1/base64/uuid4 as uninterpreted deterministic functions (collision freedom for the <= '
+                      'direction), parseAuthorization abstracted by its contract (None | exception | map with username/scheme), '
+                      'SimpleCookie and the session store as summaries.',
+        'explanation': 'contracts on the authentication / session / virtual host functions discharged by z3',
+        'not_decided': ['parse_http_list/parse_keqv_list grammar inside parseAuthorization (abstracted)', 'MD5-sess / auth-int variants'],
+    },
 }
